@@ -13,12 +13,12 @@ type (
 	Mutex     = simrt.Mutex
 	WaitGroup = simrt.WaitGroup
 	Pool      = simrt.Pool
+	RWMutex   = simrt.RWMutex
+	Once      = simrt.Once
 
-	RWMutex = sync.RWMutex
-	Once    = sync.Once
-	Cond    = sync.Cond
-	Map     = sync.Map
-	Locker  = sync.Locker
+	Cond   = sync.Cond
+	Map    = sync.Map
+	Locker = sync.Locker
 )
 
 func NewCond(l Locker) *Cond { return sync.NewCond(l) }
